@@ -65,7 +65,7 @@ structure Negotiated (typ : DType) (m : MSec) (t : Transceiver) : Prop where
   mid : t.mid = some m.mid
   kind : t.kind = m.kind
   remoteSet : t.remoteSet = true
-  codecs : ∃ prefs, filterPreferred (findCommon (codecsOf m.kind) m.codecs) prefs = .ok t.codecs
+  codecs : filterPreferred (findCommon (codecsOf m.kind) m.codecs) t.preferred = .ok t.codecs
   nonempty : t.codecs ≠ []
   exts : t.exts = findCommonExt (extsOf m.kind) m.exts
   cur : typ = .answer → t.currentDirection = some (revDir m.direction)
@@ -84,7 +84,7 @@ theorem negotiateTransceiver_spec {typ : DType} {t t' : Transceiver} {m : MSec} 
     · rename_i hne
       cases h
       simp only [matchesSec, Bool.and_eq_true, beq_iff_eq, Bool.or_eq_true] at hm
-      refine ⟨⟨?_, hm.1, rfl, ⟨t.preferred, hc⟩, ?_, rfl, ?_, ?_⟩, rfl, rfl, rfl, ?_, ?_, ?_, ?_⟩
+      refine ⟨⟨?_, hm.1, rfl, hc, ?_, rfl, ?_, ?_⟩, rfl, rfl, rfl, ?_, ?_, ?_, ?_⟩
       · rcases hm.2 with h1 | h1
         · cases ht : t.mid <;> simp_all
         · simp [h1]
